@@ -47,11 +47,14 @@ var Shares = []Share{
 	{To: "C01", From: "C09", Rule: "R2", Key: `MATCHED_VARS`, Why: "chain links reading MATCHED_VARS must see this rule's matches only", Seed: "C01-G"},
 	{To: "C01", From: "C03", Rule: "R7", Key: `always stored`, Why: "a received value that never reaches its collection is a missed match for every rule targeting it", Seed: "C01-J"},
 
+	{To: "C01", From: "C17", Rule: "R4", Key: `ctl: rule loop`, Why: "a run-time target exclusion that does not reach every rule of its id range leaves phantom matches on the excluded argument", Seed: "C01-L"},
 	// C02: interruption and engine modes
 	{To: "C02", From: "C08", Rule: "R1", Key: `reset at end of phase`, Why: "an interrupted phase must leave the same flow state as a completed one: the exit taken on interruption passes through the end-of-phase resets", Seed: "C02-C"},
 	{To: "C02", From: "C05", Rule: "R1", Key: `Transaction\.RuleEngine`, Why: "engine modes hold only if every transaction starts from the WAF's mode", Seed: "C02-G"},
 	{To: "C02", From: "C16", Rule: "R2", Key: `internal/actions\.\(\*(status|deny|drop|redirect|block|allow|pass)Fn\)`, Why: "the status and action of the interruption are the ones written in the rule", Seed: "C02-H"},
 
+	{To: "C02", From: "C17", Rule: "R5", Key: `DeleteByID`, Why: "removing a rule must keep the others in configuration order: the first rule to interrupt is decided by that order", Seed: "C02-K"},
+	{To: "C02", From: "C17", Rule: "R6", Key: `ClearDisruptiveActions`, Why: "an action update must not change the status the rule interrupts with", Seed: "C02-L"},
 	// C03: request data visible, never dropped
 	{To: "C03", From: "C10", Rule: "R5", Key: reBodyBuf, Why: "rules see the body through the buffer: bytes lost in the buffer are dropped request data", Seed: "C03-D"},
 	{To: "C03", From: "C10", Rule: "R6", Key: reBodyBuf, Why: "same as C10.R5 for the spill path", Seed: "C03-D"},
@@ -59,6 +62,9 @@ var Shares = []Share{
 	{To: "C03", From: "C05", Rule: "R2", Key: `Reset`, Why: "stale names of a pooled collection count against the argument limit and push out received data", Seed: "C03-G"},
 	{To: "C03", From: "C18", Rule: "R5", Why: "the connector must hand every request body to the transaction", Seed: "C03-I"},
 
+	{To: "C03", From: "C09", Rule: "R6", Key: `BodyAccess`, Why: "whether a body is read is decided by the transaction's own switch (a ctl may have turned it on)", Seed: "C03-K", Zero: true},
+	{To: "C03", From: "C10", Rule: "R1", Why: "the request-body entry points must agree on limits and access: bytes that one of them silently refuses are dropped request data", Seed: "C03-K C03-L"},
+	{To: "C03", From: "C10", Rule: "R2", Why: "as C10.R1", Seed: "C03-L"},
 	// C04: outcome is a function of configuration and request only
 	{To: "C04", From: "C05", Rule: "R1", Why: "state surviving from an earlier transaction makes the outcome depend on history (C05 is the pooled-object instance of C04)", Seed: "C04-J"},
 	{To: "C04", From: "C05", Rule: "R2", Why: "as C05.R1", Seed: "C03-G"},
@@ -70,6 +76,7 @@ var Shares = []Share{
 	{To: "C04", From: "C07", Rule: "R6", Pos: `internal/collections/`, Why: "an index derived from two walks of a Go map is only in range when both walks agree, which the runtime does not promise", Seed: "C04-G"},
 	{To: "C04", From: "C15", Rule: "R1", Key: `capture loop`, Why: "a capture slot left over from the previously examined value makes the result depend on the order values were examined in", Seed: "C04-I"},
 
+	{To: "C04", From: "C03", Rule: "R7", Key: `loop #\d+ over bodyprocessors\.readJSON|is complete`, Why: "an ingestion loop over a Go map that can stop early keeps a run-dependent subset of the body", Seed: "C04-K"},
 	// C05: isolation from earlier transactions
 	{To: "C05", From: "C06", Rule: "R1", Why: "a write to WAF- or rule-owned state during a transaction outlives it and is seen by the next one", Seed: "C05-G C05-H"},
 
@@ -80,18 +87,23 @@ var Shares = []Share{
 	{To: "C06", From: "C13", Rule: "R5", Why: "Regexp.Longest mutates a compiled pattern that the cache shares between goroutines", Seed: "C06-J"},
 	{To: "C06", From: "C19", Rule: "R4", Key: `serial writer`, Why: "records of concurrent transactions interleave unless each is emitted by one write", Seed: "C06-C"},
 
+	{To: "C06", From: "C13", Rule: "R2", Why: "a cached object that the key does not determine is another WAF's object: concurrent WAFs in one process see each other", Seed: "C06-L"},
+	{To: "C08", From: "C02", Rule: "R2", Key: `handed to RemoveRule`, Why: "a malformed ctl must not remove rule 0, i.e. every SecMarker that skipAfter relies on", Seed: "C08-L"},
+	{To: "C17", From: "C02", Rule: "R2", Key: `handed to RemoveRule`, Why: "a ctl removal acts on the ids written, not on the parser's failure value", Seed: "C08-L"},
 	// C09: non-disruptive actions, counters
 	{To: "C09", From: "C14", Rule: "R5", Key: `(?i)multimatch`, Why: "with multiMatch the actions run once per collected value: the collection rule decides how often", Seed: "C09-E"},
 	{To: "C09", From: "C15", Rule: "R1", Key: `capture loop`, Why: "the capture action's TX.0-9 must be this match's groups", Seed: "C09-F"},
 	{To: "C09", From: "C08", Rule: "R4", Key: `ruleRemoveBy`, Why: "a ctl removal executed by a matched rule must take effect for the rules after it", Seed: "C09-G"},
 	{To: "C09", From: "C05", Rule: "R3", Why: "counters add up only from their documented initial value in every transaction", Seed: "C09-H"},
 
+	{To: "C09", From: "C17", Rule: "R5", Key: `ClearDisruptiveActions`, Why: "an action update replaces the disruptive action only: flow and non-disruptive actions keep running once per match", Seed: "C09-L"},
 	// C10: body buffering and limits
 	{To: "C10", From: "C05", Rule: "R1", Key: reBodyConf, Why: "limits are enforced exactly only if each transaction starts from the configured limits", Seed: "C10-C"},
 	{To: "C10", From: "C05", Rule: "R4", Key: reBodyBuf, Why: "a recycled buffer that keeps bytes or its length is not byte-faithful for the next body", Seed: "C10-H"},
 	{To: "C10", From: "C20", Rule: "R2", Key: reBodyBuf, Why: "as C05.R4 on the failure path of Close", Seed: "C10-H"},
 	{To: "C10", From: "C18", Rule: "R5", Why: "the body that is buffered is the body the connector read", Seed: "C10-I"},
 
+	{To: "C10", From: "C03", Rule: "R7", Key: `multipart`, Why: "under ProcessPartial exactly the first limit bytes are inspected, including the part the limit cuts", Seed: "C10-K"},
 	// C11: prefilter
 	{To: "C11", From: "C07", Rule: "R6", Pos: `internal/operators/rxprefilter`, Why: "a prefilter that panics on a pattern changes what @rx does with it", Seed: "C11-I"},
 	{To: "C11", From: "C15", Rule: "R4", Pos: `internal/operators/rxprefilter`, Why: "as C07.R6", Seed: "C11-I"},
@@ -101,11 +113,20 @@ var Shares = []Share{
 	{To: "C12", From: "C14", Rule: "R1", Why: "a cached string aliasing a reused buffer is silently replaced by a later value", Seed: "C12-D C12-F"},
 	{To: "C12", From: "C06", Rule: "R1", Key: `corazawaf\.Rule`, Why: "a transformed value parked in the shared rule is another transaction's value", Seed: "C12-I", Zero: true},
 
+	{To: "C12", From: "C09", Rule: "R3", Key: `RULE\.`, Why: "a rule whose target is RULE is evaluated against the content set for this rule", Seed: "C12-K"},
 	// C13: pattern caching invisible
 	{To: "C13", From: "C12", Rule: "R2", Why: "cache keys must identify what they cache at full width", Seed: "C13-I"},
 
+	{To: "C13", From: "C16", Rule: "R2", Key: `regex key .* compiled as written`, Why: "the pattern compiled must be the text the cache key was made from", Seed: "C13-K"},
+	{To: "C13", From: "C06", Rule: "R2", Key: `memoize`, Why: "construction must not fail (or crash) because another WAF touches the shared cache entry", Seed: "C13-L"},
+
+	// C14: transformations
+	{To: "C14", From: "C15", Rule: "R8", Pos: `internal/transformations/`, Why: "lowercase/uppercase and the decoders equal their definitions only if their character classes are complete", Seed: "C14-L"},
+
 	// C15: operators decide their predicates
 	{To: "C15", From: "C11", Rule: "R3", Key: `case-fold arithmetic`, Why: "OR-ing 0x20 into a byte before a range test accepts bytes outside the documented class", Seed: "C15-D"},
+
+	{To: "C15", From: "C09", Rule: "R3", Key: `CaptureField stores every slot`, Why: "capturing operators store the matched texts in TX.0-9", Seed: "C15-K"},
 
 	// C16: directive text
 	{To: "C16", From: "C13", Rule: "R1", Key: reMemoKey, Why: "a selector written in one rule must not be replaced by the selector written in another", Seed: "C16-C"},
@@ -127,6 +148,7 @@ var Shares = []Share{
 
 	{To: "C18", From: "C07", Rule: "R9", Why: "the client receives the interruption's status only if the delegate writer accepts it", Seed: "fix30"},
 
+	{To: "C18", From: "C10", Rule: "R3", Key: `ResponseBodyLimit`, Why: "a response limit above the buffer's own makes the handler's writes fail half way", Seed: "C18-K"},
 	// C19: audit and error logging
 	{To: "C19", From: "C06", Rule: "R1", Key: `(?i)audit`, Why: "the audit configuration of the WAF must not be rewritten by a transaction", Seed: "C19-E"},
 	{To: "C19", From: "C05", Rule: "R1", Key: `(?i)audit`, Why: "as C06.R1", Seed: "C19-E"},
@@ -138,6 +160,8 @@ var Shares = []Share{
 	{To: "C20", From: "C05", Rule: "R1", Key: reBodyConf, Why: "whether exceeding a limit is reported depends on the transaction carrying the configured limit", Seed: "C20-J"},
 	{To: "C20", From: "C10", Rule: "R1", Key: `Write(Request|Response)Body`, Why: "reaching the limit is a failure that has to be reported at exactly the limit", Seed: "C20-E"},
 	{To: "C20", From: "C10", Rule: "R2", Key: `Write(Request|Response)Body`, Why: "as C10.R1", Seed: "C20-E"},
+	{To: "C20", From: "C16", Rule: "R2", Key: `ParseUploadKeepFilesStatus`, Why: "whether temporary files are kept is the setting written last", Seed: "C20-K"},
+	{To: "C20", From: "C18", Rule: "R2", Why: "Close, which removes the temporary files, runs however the handler ends", Seed: "C20-L"},
 	{To: "C20", From: "C06", Rule: "R1", Key: `audit writer`, Why: "an audit target that cannot be opened is reported when the WAF is built, not swallowed at the first record", Seed: "C20-G"},
 }
 
